@@ -564,6 +564,79 @@ Section Clock.
     Qed.
   End Bearer.
 
+  (* ---------------------------------------------------------------- _bearer_confirmed, data that name an Address
+     (strengthening round 6).  SubjectConfirmationData/@Address is optional; when it is there, valid_address() is
+     asked (external: True for an IPv4/IPv6 text, raises NotValid for anything else) and NOTHING else changes: the
+     window is looked at exactly as for data without an Address. *)
+  Definition enc_data_at (addr : pyval) (snb snooa : option stamp) (irt : pyval) : pyval :=
+    PObj [("__class__", PStr "SubjectConfirmationData"); ("address", addr); ("not_before", enc_ts snb);
+          ("not_on_or_after", enc_ts snooa); ("in_response_to", irt)].
+  Lemma enc_data_is_at snb snooa irt : enc_data snb snooa irt = enc_data_at PNone snb snooa irt.
+  Proof. reflexivity. Qed.
+  Lemma dat_nb d a b i : p2_attr (enc_data_at d a b i) "not_before" = enc_ts a.
+  Proof. reflexivity. Qed.
+  Lemma dat_nooa d a b i : p2_attr (enc_data_at d a b i) "not_on_or_after" = enc_ts b.
+  Proof. reflexivity. Qed.
+  Lemma dat_address d a b i : p2_attr (enc_data_at d a b i) "address" = d.
+  Proof. reflexivity. Qed.
+  Lemma dat_irt d a b i : p2_attr (enc_data_at d a b i) "in_response_to" = i.
+  Proof. reflexivity. Qed.
+  Lemma not_dat d a b i : p2_not (enc_data_at d a b i) = PBool false.
+  Proof. reflexivity. Qed.
+
+  Section BearerAddress.
+    Variable valid_address : pyval -> pyval.
+    Variable atext : string.                    (* the Address attribute: any non-empty text *)
+    Hypothesis atext_nonempty : is_empty atext = false.
+
+    Ltac dat_rw :=
+      first [ rewrite dat_nb | rewrite dat_nooa | rewrite dat_address | rewrite not_dat | rewrite attr_asynchop
+            | rewrite dat_irt | rewrite atext_nonempty ].
+
+    (* a well-formed Address: the window decides, as without it (synchronous exchange) *)
+    Theorem src2_bearer_confirmed_address_is_model : forall now r snb snooa irt,
+      valid_address (PStr atext) = PBool true -> f_asynchop r = false ->
+      src2_bearer_confirmed (PInt now) to_secs parse gmtime valid_address (enc_self r) (enc_data_at (PStr atext) snb snooa irt)
+      = enc_result (m_bearer_window now (f_slack r) snb snooa, r).
+    Proof.
+      intros now r snb snooa irt Hv Ha. unfold m_bearer_window, enc_result. cbn [fst snd].
+      destruct snb as [sa|], snooa as [sb|]; cbn [validate_on_or_after validate_before later_than]; name_tests;
+        cbv delta [src2_bearer_confirmed]; cbv beta.
+      all: (run_with ltac:(first [dat_rw | rewrite Ha | rewrite Hv]); cbn [negb enc_outcome]; reflexivity).
+    Qed.
+
+    (* ... and in the exchange of the correspondence cases (asynchronous, the one outstanding request) *)
+    Theorem src2_bearer_confirmed_address_async_is_model : forall now r snb snooa irt cf,
+      valid_address (PStr atext) = PBool true ->
+      f_asynchop r = true -> f_irt r = PStr irt -> f_outstanding r = PObj [(irt, PStr cf)] -> f_came_from r = PNone ->
+      is_empty irt = false -> String.eqb irt "__class__" = false ->
+      src2_bearer_confirmed (PInt now) to_secs parse gmtime valid_address (enc_self r)
+        (enc_data_at (PStr atext) snb snooa (PStr irt))
+      = let o := m_bearer_window now (f_slack r) snb snooa in
+        enc_result (o, match o with ORet true => with_came_from r (PStr cf) | _ => r end).
+    Proof.
+      intros now r snb snooa irt cf Hv Ha Hi Ho Hf Hne Hcls. unfold m_bearer_window, enc_result. cbn [fst snd].
+      destruct snb as [sa|], snooa as [sb|]; cbn [validate_on_or_after validate_before later_than]; name_tests;
+        cbv delta [src2_bearer_confirmed]; cbv beta.
+      all: (run_with ltac:(first [dat_rw | rewrite Ha | rewrite Hv | rewrite attr_irt | rewrite attr_outstanding
+                                | rewrite attr_came_from | rewrite Hi | rewrite Ho | rewrite Hf
+                                | rewrite Hne | rewrite Hcls | rewrite String.eqb_refl
+                                | rewrite setattr_came_from by reflexivity]);
+                 cbn [negb enc_outcome]; reflexivity).
+    Qed.
+
+    (* an Address that is no IPv4/IPv6 text: NotValid, whatever the window and the kind of exchange *)
+    Theorem src2_bearer_confirmed_bad_address_raises : forall now r snb snooa irt,
+      valid_address (PStr atext) = PExc "NotValid" ->
+      src2_bearer_confirmed (PInt now) to_secs parse gmtime valid_address (enc_self r) (enc_data_at (PStr atext) snb snooa irt)
+      = enc_result (OExc "NotValid", r).
+    Proof.
+      intros now r snb snooa irt Hv. unfold enc_result. cbn [fst snd].
+      cbv delta [src2_bearer_confirmed]; cbv beta.
+      run_with ltac:(first [dat_rw | rewrite Hv]). cbn [enc_outcome]. reflexivity.
+    Qed.
+  End BearerAddress.
+
   (* ---------------------------------------------------------------- session_info *)
   Lemma attr_session r : p2_attr (enc_self r) "session_not_on_or_after" = PInt (f_session r).
   Proof. reflexivity. Qed.
